@@ -63,7 +63,7 @@ def plan(tier, seed):
 
 def mandatory(tier):
     out = [f"class/{n}" for n in X.ALL] + [f"kind/{k}" for k in X.KINDS] + ["groups/1", "groups/N"]
-    out += ["fresh_identity", "non_identity", "forward/grid_flag/finer_grid/nonzero_boundary", "disp/own", "disp/resized", "disp/other_domain", "points/world", "pointset_transformer", "sequential", "multilevel", "generic", "image/equal", "image/same_domain", "image/other_domain", "matrix"]
+    out += ["fresh_identity", "non_identity", "forward/grid_flag/finer_grid/nonzero_boundary", "disp/own", "disp/resized", "disp/other_domain", "points/world", "pointset_transformer", "sequential", "multilevel", "generic", "image/equal", "image/same_domain", "image/other_domain", "image/other_domain_default_source", "after_data_", "matrix"]
     return out
 
 
@@ -315,11 +315,15 @@ def case(ctx, i):
             ugf = np.moveaxis((ml(xg, grid=True) - xg).double().numpy(), -1, 1)
         ctx.close("multilevel_grid_flag_adds_displacements", ugf, ug, TOL, key=f"multilevel/grid_flag/{'linear' if ml.linear else 'nonrigid'}", second=n2, **info)
     # ---------------- image warping
-    for rel in ("equal", "same_domain", "other_domain"):
+    for rel in ("equal", "same_domain", "other_domain", "other_domain_default_source"):
         with ctx.guard("ImageTransformer", key=f"exc/image/{rel}", relation=rel, **info):
             ctx.bucket(f"image/{rel}")
             if rel == "equal":
                 target, source = g, g
+            elif rel == "other_domain_default_source":
+                # source omitted: documented default is the target grid (the image lives on the output grid)
+                _, target = other_domain_grid(rng, gref, D)
+                source = target
             elif rel == "same_domain":
                 target = g.resize(tuple(int(rng.integers(max(4, k // 2), 2 * k)) for k in g.size()))
                 source = g.resize(tuple(int(rng.integers(max(5, k // 2 + 2), 2 * k)) for k in g.size()))
@@ -333,7 +337,10 @@ def case(ctx, i):
             sref, tref = gen.ref_of_grid(source), gen.ref_of_grid(target)
             ramp = Ramp.random(rng, 2, sref)
             data = torch.tensor(ramp.on_grid(sref)[None], dtype=torch.float32).expand(G, -1, *source.shape).contiguous()
-            warp = S.ImageTransformer(t, target=target, source=source, padding="zeros")
+            if rel == "other_domain_default_source":
+                warp = S.ImageTransformer(t, target=target, padding="zeros")
+            else:
+                warp = S.ImageTransformer(t, target=target, source=source, padding="zeros")
             out = warp(data)
             ok = ctx.true("warped_shape", tuple(out.shape) == (G, 2) + tuple(target.shape), key="image/shape", got=list(out.shape), relation=rel, **info)
             if not ok:
@@ -351,6 +358,19 @@ def case(ctx, i):
                 got = out[n_].detach().double().numpy()
                 m = np.broadcast_to(mask, want.shape)
                 ctx.close("warped_ramp_is_ramp_at_T_of_x", got[m], want[m], 3e-4, key=f"image/{rel}/{'linear' if t.linear else 'nonrigid'}", relation=rel, step=ramp.step(sref), n_compared=int(mask.sum()), **info)
+    # ---------------- the views still agree after the parameters were replaced (same shape), without update() / call in between
+    if kind != "callable" and hasattr(t, "data_") and isinstance(getattr(t, "params", None), torch.Tensor):
+        with ctx.guard("views after data_()", key=f"exc/after_data_/{name}", **info):
+            ctx.bucket("after_data_")
+            new = t.params.detach().clone() * float(rng.uniform(0.4, 0.8))
+            t.data_(new)
+            d_first = t.disp().detach().double().numpy()  # read before anything calls the transform
+            w_first = t.points(torch.tensor(gref.points(x[0].double().numpy(), ax_t, WORLD)[None], dtype=torch.float64), axes=Axes.WORLD).detach().double().numpy()
+            u_new, _ = grid_map(g)
+            ctx.close("disp_after_data_equals_point_map", d_first, u_new, TOL, key=f"after_data_/disp/{'linear' if t.linear else 'nonrigid'}", **info)
+            Wn = gref.points(x[0].double().numpy(), ax_t, WORLD)
+            Wyn, _ = world_map(t, gref, Wn, G)
+            ctx.close("points_after_data_equals_point_map", w_first, Wyn, TOL * float(np.linalg.norm(gref.s * gref.n)), key="after_data_/points", **info)
 
 
 # ------------------------------------------------------------------------------------------------
